@@ -6,6 +6,7 @@ from . import base
 from .c06 import FIXED
 
 PROP = "C08"
+SOLVER = {'bounds': 'calc_hash: names of 4 symbolic characters, every 32-bit CRC value; compute_string: 0..7 symbolic bytes; compute_hash: names of 1..3 (thorough 4) symbolic characters over 7 letters; literals of 1..14 characters concretely; programs enumerated'}
 HDR = base.witness.HDR
 
 ASSUMPTIONS = [
